@@ -16,7 +16,8 @@ EXPLANATION = (
     "byte lies inside the log; (B4) SET_LOG_BASE builds all bitmaps before replacing any and replaces them in every current "
     "region; (B5) logging stays in force: the accepted log mapping is retained by the handler and installed for regions "
     "created by later memory-table changes."
-    ' Also: (B2) a slice of the region bitmap starts at base + offset exactly; (B4) installing a bitmap overwrites the previous one; (B6) C03/R1 for SET_LOG_BASE.')
+    ' Also: (B2) a slice of the region bitmap starts at base + offset exactly; (B4) installing a bitmap overwrites the previous one; (B6) C03/R1 for SET_LOG_BASE.'
+    " Round 4/5: (B3) the last-byte word and the page fields are evaluated on sample regions (incl. one above 4 GiB) instead of matched as text; (B7) Clone copies every field; (B8) the log file is mapped at the request's offset and length (conversions only); (B9) the unit bitmap's constructor fails on every path; (B10) the SET_LOG_BASE body carries the region's mmap_size / mmap_offset; (B11) C19/U3.")
 NOT_DECIDED = "The arithmetic as a numeric function over all values (bit = gpa/4096 for every address), cross-process visibility of the mapping."
 
 
@@ -32,6 +33,7 @@ def run(ctx, chk):
     chk.rule("B5", "the log stays in force across later memory-table changes")
     run_on(fb, chk)
     b7b8b9(fb, chk)
+    b10(fb, chk)
     from . import xlist
     xlist.apply("C15", fb, chk)
     n = lambda r: len([i for i in chk.instances if i[0] == r])
@@ -174,6 +176,9 @@ def run_on(fb, chk, tag=""):
                         nonempty = True
             if not nonempty:
                 probs.add("Ok for an empty region")
+            pf = _page_fields_ok(fb, sym, o.ret)
+            if pf is False:
+                probs.add("pages_before_region / number_of_pages are not start / 4096 and len / 4096 for every region (e.g. one above 4 GiB)")
         chk.check(not probs and nok >= 1, "B3", tag + "new:bounds", "bitmap created only if the last byte's word is inside the log",
                   "AtomicBitmapMmap::new: %s" % "; ".join(sorted(probs)), f.loc())
     else:
@@ -297,9 +302,41 @@ def _is_last_word(fb, sym, x):
             ln = s_
     if start is None or ln is None:
         return False
-    for st, n in ((0, 1), (0, 4096), (0x1000, 0x8001), (0x7fff, 2), (0x123456, 0x654321), (0x8000, 0x8000)):
+    for st, n in SAMPLE_REGIONS:
         v = const_eval(fb, sym, x, env={start: st, ln: n})
         if v != ((st + n - 1) // 4096) // 8:
+            return False
+    return True
+
+
+# (start, length) of sample regions, including one above 4 GiB (a narrowing of the address would show)
+SAMPLE_REGIONS = ((0, 1), (0, 4096), (0x1000, 0x8001), (0x7fff, 2), (0x123456, 0x654321), (0x8000, 0x8000), (0x1_0000_3000, 0x2000),
+                  (0x7f_ffff_f000, 0x1_0000_1000))
+
+
+def _page_fields_ok(fb, sym, ret):
+    """The bitmap's `pages_before_region` / `number_of_pages` are start / 4096 and len / 4096 (evaluated on the samples)."""
+    while ret[0] in ("ref", "deref"):
+        ret = ret[1]
+    if ret[0] == "agg" and ret[2] == "Ok" and ret[3]:
+        ret = ret[3][0][1]
+    if ret[0] != "agg":
+        return None
+    flds = dict(ret[3])
+    pb, np_ = flds.get("pages_before_region"), flds.get("number_of_pages")
+    if pb is None or np_ is None:
+        return None
+    start = ln = None
+    for s_ in list(subterms(pb)) + list(subterms(np_)):
+        if s_[0] == "call" and s_[1] == "start_addr":
+            start = s_
+        if s_[0] == "call" and s_[1] == "len" and "logmem" not in show(s_):
+            ln = s_
+    if start is None or ln is None:
+        return False
+    for st, n in SAMPLE_REGIONS:
+        env = {start: st, ln: n}
+        if const_eval(fb, sym, pb, env=env) != st // 4096 or const_eval(fb, sym, np_, env=env) != n // 4096:
             return False
     return True
 
@@ -351,6 +388,38 @@ def _conv_source(t, depth=0):
     return None
 
 
+def b10(fb, chk, tag=""):
+    """The frontend describes the log area to the backend with the caller's values: mmap_size and mmap_offset of the
+    SET_LOG_BASE body are the region's mmap_size and mmap_offset (the log address `base` is not part of the shmfd form)."""
+    chk.rule("B10", "SET_LOG_BASE body: mmap_size <- region.mmap_size, mmap_offset <- region.mmap_offset")
+    from . import common
+    f = common.frontend_methods(fb).get("set_log_base")
+    if f is None:
+        chk.anchor_missing("B10", tag + "Frontend::set_log_base")
+        return
+    sym = Sym(f, fb)
+    n = 0
+    for bi, b in enumerate(f.blocks):
+        if b["cleanup"]:
+            continue
+        for st in b["stmts"]:
+            if st["k"] == "assign" and st["rv"]["k"] == "agg" and st["rv"].get("ak") == "adt" and (st["rv"].get("adt") or "").endswith("VhostUserLog"):
+                v = sym.rvalue(st["rv"])
+                n += 1
+                for fld, val in v[3]:
+                    x = val
+                    while x[0] in ("ref", "deref", "cast"):
+                        x = x[1]
+                    src = x[2] if x[0] == "field" else None
+                    roots = [y for y in subterms(val) if y[0] == "param"]
+                    ok = src == fld and roots and all(y[2] == "region" or y[1] == 3 for y in roots)
+                    chk.check(bool(ok), "B10", "%sset_log_base:%s" % (tag, fld), "%s <- region.%s" % (fld, fld),
+                              "Frontend::set_log_base fills VhostUserLog.%s from `%s`, not from the caller's region.%s: the backend maps a "
+                              "different window of the log file than the one the frontend reads" % (fld, show(val)[:60], fld), f.loc(st.get("line")))
+    if n == 0:
+        chk.bad("B10", tag + "set_log_base:body", "no VhostUserLog body is built in Frontend::set_log_base", f.loc())
+
+
 def b7b8b9(fb, chk, tag=""):
     chk.rule("B7", "a copy of a region's bitmap handle logs through the same log at the same base address (Clone copies every field)")
     chk.rule("B8", "the log file is mapped at exactly the offset and length of the request (no rounding, no adjustment)")
@@ -391,6 +460,20 @@ def b7b8b9(fb, chk, tag=""):
                       "declared log area" % show(args[5])[:80], f.loc(t["line"]))
             chk.check(ok_len, "B8", tag + "from_file:len", "mmap length = the request's mmap_size (conversions only)",
                       "MmapLogReg::from_file maps `%s` bytes, not the length it was given" % show(args[1])[:80], f.loc(t["line"]))
+            flags = const_eval(fb, sym, args[3])
+            prot = const_eval(fb, sym, args[2])
+            chk.check(flags == 1 and prot == 3, "B8", tag + "from_file:shared-rw", "mmap(PROT_READ | PROT_WRITE, MAP_SHARED)",
+                      "MmapLogReg::from_file maps the log with prot=%s flags=%s: the dirty bits must land in the SHARED mapping the frontend "
+                      "reads (MAP_SHARED = 1, PROT_READ|PROT_WRITE = 3)" % (prot, flags), f.loc(t["line"]))
+            # success is returned only when the mapping succeeded: the result was compared with MAP_FAILED
+            call = sym.call_at(bb)
+            outs_, osym = Summariser(fb, no_inline=lambda g_: True).paths(f)
+            oks = [o for o in outs_ if o.ret is not None and ret_okness(o.ret) is True]
+            tested = oks and all(any(a[0] == "cmp" and a[1] == "Ne" and any(x == call or (x[0] == "call" and x[1] == "mmap") for x in subterms(a[2]))
+                                     and "MAP_FAILED" in show(a[3]) for a in o.atoms) for o in oks)
+            chk.check(bool(tested), "B8", tag + "from_file:failure-detected", "Ok only when mmap(..) != MAP_FAILED",
+                      "MmapLogReg::from_file can return Ok without having compared the mmap result with MAP_FAILED: a log that cannot be "
+                      "mapped is accepted and later marks touch memory outside any log mapping", f.loc(t["line"]))
         if n != 1:
             chk.bad("B8", tag + "from_file:mmap", "expected exactly one mmap call, found %d" % n, f.loc())
     # B9
